@@ -153,7 +153,7 @@ class Extractor:
     def parse_block(self, block):
         """parse the directive block of an EXTRACT."""
         d = dict(ret=None, safety=None, spec=None, loops={}, loopstart={}, loopend={}, inserts=[], substs=[], bodyonly=False,
-                 frm=None, to=None, optional=False, rename=None, pub=False, r4=False, replaces=[], pubfields=False)
+                 frm=None, to=None, optional=False, rename=None, pub=False, r4=False, replaces=[], pubfields=False, fnend=None)
         i = 0
 
         def grab(endmarks):
@@ -201,6 +201,9 @@ class Extractor:
                 n = int(w[1])
                 txt, _ = grab(["ENDLOOP"])
                 d["loops"][n] = txt
+            elif k == "FNEND":
+                txt, _ = grab(["ENDFNEND"])
+                d["fnend"] = txt
             elif k == "LOOPSTART":
                 n = int(w[1])
                 txt, _ = grab(["ENDLOOPSTART"])
@@ -522,6 +525,11 @@ class Extractor:
                     n4 += 1
             if n4 == 0:
                 raise LostAnchor("R4 requested but fn %s has no `continue`" % name)
+
+        if kind == "fn" and d["fnend"] is not None:
+            o = toks[body_hi].start - base
+            pieces.append(Piece(o, o, "\n" + d["fnend"] + "\n", "ins"))
+            bump("R8")
 
         if kind == "fn" and d["loopend"]:
             for n, txt in d["loopend"].items():
